@@ -1401,29 +1401,42 @@ class Container:
         if solute not in self.contents:
             raise ValueError(f"Container does not contain {solute.name}.")
 
-        new_ratio, numerator, denominator = Unit.calculate_concentration_ratio(solute, concentration, solvent)
+        new_concentration, numerator, denominator = Unit.parse_concentration(concentration)
 
         if numerator == 'U':
             if not solute.is_enzyme():
                 raise TypeError("Solute must be an enzyme.")
 
-        current_ratio = self.contents[solute] / sum(self.contents[substance] for
-                                                    substance in self.contents if not substance.is_enzyme())
-
-        if new_ratio <= 0:
+        if new_concentration <= 0:
             raise ValueError("Solution is impossible to create.")
 
-        if abs(new_ratio - current_ratio) <= 1e-6:
+        def measure(substance, amount, unit):
+            """ Amount (in storage format) of substance expressed in unit. """
+            return Unit.convert_from(substance, amount,
+                                     'U' if substance.is_enzyme() else config.moles_storage_unit, unit)
+
+        # concentration = top / bottom. Adding solvent leaves top alone and raises bottom, whatever else is dissolved.
+        top = measure(solute, self.contents[solute], numerator)
+        bottom = sum(measure(substance, amount, denominator) for substance, amount in self.contents.items())
+        if bottom <= 0:
+            raise ValueError("Solution is impossible to create.")
+        current_concentration = top / bottom
+
+        if abs(new_concentration - current_concentration) <= 1e-6 * current_concentration:
             return deepcopy(self)
 
-        if new_ratio > current_ratio:
+        if new_concentration > current_concentration:
             raise ValueError("Desired concentration is higher than current concentration.")
 
-        current_umoles = Unit.convert_from_storage(self.contents.get(solvent, 0), 'umol')
-        required_umoles = Unit.convert_from_storage(self.contents[solute], 'umol') / new_ratio - current_umoles
-        new_volume = self.volume + Unit.convert(solvent, f"{required_umoles} umol", config.volume_storage_unit)
+        bottom_per_unit = measure(solvent, 1, denominator)
+        if solvent == solute or bottom_per_unit <= 0:
+            raise ValueError("Solution is impossible to create.")
 
-        if new_volume > self.max_volume:
+        solvent_unit = 'U' if solvent.is_enzyme() else config.moles_storage_unit
+        needed_solvent = f"{(top / new_concentration - bottom) / bottom_per_unit} {solvent_unit}"
+        new_volume = self.volume + Unit.convert(solvent, needed_solvent, config.volume_storage_unit)
+
+        if round(new_volume, config.internal_precision) > self.max_volume:
             raise ValueError("Dilute solution will not fit in container.")
 
         if name:
@@ -1432,9 +1445,8 @@ class Container:
             destination.name = name
         else:
             destination = self
-        needed_umoles = f"{required_umoles} umol"
-        result = destination._add(solvent, needed_umoles)
-        needed_volume, unit = Unit.get_human_readable_unit(Unit.convert(solvent, needed_umoles, 'L'), 'L')
+        result = destination._add(solvent, needed_solvent)
+        needed_volume, unit = Unit.get_human_readable_unit(Unit.convert(solvent, needed_solvent, 'L'), 'L')
         precision = config.precisions[unit] if unit in config.precisions else config.precisions['default']
         result.instructions += f"\nDilute with {round(needed_volume, precision)} {unit} of {solvent.name}."
         return result
